@@ -118,8 +118,9 @@ structure Call where
   certAssertion : CertArg := .none
   certAdvice : CertArg := .none
   md : List MdKey := []
-  /-- an advice assertion already present in the assertion handed to `_response` (not PEFIM's own) -/
-  extraAdvice : Option Adv := none
+  /-- the assertion handed to `_response` already carries one advice assertion (not PEFIM's own;
+      unsigned, schema-valid) -/
+  extraAdvice : Bool := false
 deriving Repr, DecidableEq, Inhabited
 
 /-! ### wire form -/
@@ -198,72 +199,103 @@ structure RArgs where
   advice : Option Adv
 deriving Repr, DecidableEq, Inhabited
 
-/-- One `_encrypt_assertion` call on a message in the given form. -/
+/-- One `_encrypt_assertion` call on a message in the given form: `some k` = encrypted with `k`,
+    `none` = no certificate to try, the message comes back as it was. -/
 def encryptStep (form : Form) (c : Choice) : Except Refusal (Option Key) :=
   match c with
   | .nothing => .ok none
   | .raised => .error .noUsableCert
   | .key k => if form = .obj then .error .objectForm else .ok (some k)
 
-/-- Part B: the advice assertion is (signed and) encrypted.  `eaa` is `encrypted_advice_attributes` after
-    the downgrade.  Returns the operations and the advice as it leaves the step. -/
-def partB (a : RArgs) (eaa : Bool) : Except Refusal (List Op × Option AdvBox) :=
+/-- `if to_sign and not sign and not encrypt_assertion: return signed_instance_factory(response, …, to_sign)` -/
+def earlyReturn (a : RArgs) : Bool := a.toSign && !a.sign && !a.encryptAssertion
+
+/-- `encrypted_advice_attributes` after `if not has_encrypt_cert and encrypt_cert_advice is None: … = False` -/
+def adviceKept (a : RArgs) : Bool := a.encryptedAdvice && (hasEncryptCert a.md || !a.certAdvice.isNone)
+/-- `encrypt_assertion` after `if not has_encrypt_cert and encrypt_cert_assertion is None: … = False` -/
+def assertionKept (a : RArgs) : Bool := a.encryptAssertion && (hasEncryptCert a.md || !a.certAssertion.isNone)
+
+/-- part B signs the advice assertion: `if sign_assertion and not pefim` -/
+def signsAdvice (a : RArgs) : Bool := a.signAssertion && !a.pefim
+
+/-- is the message a string when part B / part C call `_encrypt_assertion`?  It becomes one through the
+    self-contained rendering or through `signed_instance_factory`. -/
+def formB (a : RArgs) : Form := if a.selfContained || signsAdvice a then .str else .obj
+def formC (a : RArgs) : Form := if a.selfContained || a.signAssertion then .str else .obj
+
+/-- the advice assertion after part B's signing step -/
+def advAfterB (a : RArgs) (adv : Adv) : Adv := { adv with signed := adv.signed || signsAdvice a }
+
+def sealAdv (ko : Option Key) (adv : Adv) : AdvBox :=
+  match ko with
+  | some k => .sealed k adv true
+  | none => .wrapped adv
+
+def sealBody (ko : Option Key) (o : Outer) : Body :=
+  match ko with
+  | some k => .sealed k o true
+  | none => .wrapped o
+
+def optOp (b : Bool) (op : Op) : List Op := if b then [op] else []
+def keyOp (f : Key → Op) (ko : Option Key) : List Op :=
+  match ko with
+  | some k => [f k]
+  | none => []
+
+/-- Part B: the advice assertion is moved into an EncryptedAssertion, signed (not under PEFIM) and
+    encrypted; the result is parsed back (`response_from_string`, which needs a string).
+    Returns the operations and the advice as it leaves the step. -/
+def partB (a : RArgs) : Except Refusal (List Op × Option AdvBox) :=
   match a.advice with
   | none => .ok ([], none)
   | some adv =>
-    if !eaa then .ok ([], some (.clear adv))
+    if !adviceKept a then .ok ([], some (.clear adv))
     else
-      let signAdv := a.signAssertion && !a.pefim
-      let adv' : Adv := { adv with signed := adv.signed || signAdv }
-      let form : Form := if a.selfContained || signAdv then .str else .obj
-      let opsS : List Op := if signAdv then [.signAdvice] else []
-      match encryptStep form (chooseCert a.certAdvice a.md) with
+      match encryptStep (formB a) (chooseCert a.certAdvice a.md) with
       | .error e => .error e
-      | .ok none =>
-        -- nothing was encrypted; `response_from_string` needs a string
-        if form = .obj then .error .parseObject else .ok (opsS, some (.wrapped adv'))
-      | .ok (some k) => .ok (opsS ++ [.encAdvice k], some (.sealed k adv' true))
+      | .ok ko =>
+        if ko.isNone && formB a = .obj then .error .parseObject
+        else .ok (optOp (signsAdvice a) .signAdvice ++ keyOp .encAdvice ko, some (sealAdv ko (advAfterB a adv)))
 
 /-- Part D: the Response signature is computed last, over the body as it then is. -/
 def finish (sign : Bool) (ops : List Op) (body : Body) (t : Trace) : Issued :=
-  { ops := ops ++ (if sign then [.signResponse] else [])
+  { ops := ops ++ optOp sign .signResponse
     wire := { sig := if sign then some body else none, body := body }
     trace := t }
 
+/-- Part C: signature template on the assertion, `pre_encrypt_assertion`, sign, encrypt. -/
+def partC (a : RArgs) (opsB : List Op) (advB : Option AdvBox) (t : Trace) : Except Refusal Issued :=
+  let outer : Outer := { sig := if a.signAssertion then some advB else none, advice := advB }
+  match encryptStep (formC a) (chooseCert a.certAssertion a.md) with
+  | .error e => .error e
+  | .ok ko =>
+    .ok (finish a.sign (opsB ++ optOp a.signAssertion .signAssertion ++ keyOp .encAssertion ko) (sealBody ko outer)
+          { t with partC := true })
+
 def response (a : RArgs) : Except Refusal Issued :=
   let adv0 : Option AdvBox := a.advice.map .clear
-  if a.toSign && !a.sign && !a.encryptAssertion then
+  if earlyReturn a then
     -- only the extra parts are signed: return at once
     .ok { ops := [.signAssertion], wire := { sig := none, body := .clear { sig := some adv0, advice := adv0 } },
           trace := { branch := .early } }
   else
-    let hasCert := hasEncryptCert a.md
-    let eaa := a.encryptedAdvice && (hasCert || !a.certAdvice.isNone)
-    let ea := a.encryptAssertion && (hasCert || !a.certAssertion.isNone)
-    let t : Trace := { branch := .encrypting, downgradedAssertion := a.encryptAssertion && !ea,
-                       downgradedAdvice := a.encryptedAdvice && !eaa }
-    if ea || (eaa && a.advice.isSome) then
-      match partB a eaa with
+    let t : Trace := { branch := .encrypting, downgradedAssertion := a.encryptAssertion && !assertionKept a,
+                       downgradedAdvice := a.encryptedAdvice && !adviceKept a }
+    if assertionKept a || (adviceKept a && a.advice.isSome) then
+      match partB a with
       | .error e => .error e
       | .ok (opsB, advB) =>
-        let t := { t with partB := eaa && a.advice.isSome }
-        if ea then
-          let form : Form := if a.selfContained || a.signAssertion then .str else .obj
-          let outer : Outer := { sig := if a.signAssertion then some advB else none, advice := advB }
-          let opsS : List Op := if a.signAssertion then [.signAssertion] else []
-          match encryptStep form (chooseCert a.certAssertion a.md) with
-          | .error e => .error e
-          | .ok none => .ok (finish a.sign (opsB ++ opsS) (.wrapped outer) { t with partC := true })
-          | .ok (some k) => .ok (finish a.sign (opsB ++ opsS ++ [.encAssertion k]) (.sealed k outer true) { t with partC := true })
+        let t := { t with partB := adviceKept a && a.advice.isSome }
+        if assertionKept a then partC a opsB advB t
         else
+          -- `if to_sign: signed_instance_factory(response, …, to_sign)`
           let outer : Outer := { sig := if a.toSign then some advB else none, advice := advB }
-          .ok (finish a.sign (opsB ++ (if a.toSign then [.signAssertion] else [])) (.clear outer) t)
+          .ok (finish a.sign (opsB ++ optOp a.toSign .signAssertion) (.clear outer) t)
     else
       -- nothing to encrypt: `self.sign(response, to_sign=to_sign)` or the bare message
       let signed := a.sign && a.toSign
       let outer : Outer := { sig := if signed then some adv0 else none, advice := adv0 }
-      .ok (finish a.sign (if signed then [.signAssertion] else []) (.clear outer)
-            { t with branch := .plain })
+      .ok (finish a.sign (optOp signed .signAssertion) (.clear outer) { t with branch := .plain })
 
 /-! ### Server._authn_response / create_authn_response -/
 
@@ -271,7 +303,9 @@ def Call.opts (c : Call) : Opts Bool := resolve c.kw c.cfg c.dflt
 
 /-- the advice assertion `_response` finds: PEFIM's own (attributes, no Issuer) or the one handed in -/
 def Call.advice (c : Call) : Option Adv :=
-  if c.pefim then some { signed := false, schemaValid := false } else c.extraAdvice
+  if c.pefim then some { signed := false, schemaValid := false }
+  else if c.extraAdvice then some { signed := false, schemaValid := true }
+  else none
 
 def Call.rargs (c : Call) : RArgs :=
   let o := c.opts
